@@ -19,6 +19,7 @@ def check(repo: Repo, rep, tier):
     utf8(repo, rep)
     escape_once(repo, rep)
     escape_nonprintable(repo, rep)
+    codegen_text(repo, rep)
     from .C01 import repr_parse
 
     repr_parse(repo, rep)
@@ -203,7 +204,68 @@ def fmt_taint_fragment(repo: Repo, rep):
                         f"{f.qualname} returns the formatter's output for an expression fragment unchecked: black formats it as a module and strips a lone string like a docstring, so `assert \"  a  \" == snapshot()` + create writes `snapshot(\"a\")`",
                         construct="fragment-unvalidated",
                     )
+        # the fall-back of the sanitiser is the *input*: every return of such a function that does not carry the formatter's output
+        # returns the text parameter itself (not a second, hand-made rendering of the value)
+        if fcalls and f.params:
+            tp = [p_ for p_ in f.params if p_ not in ("self", "cls")]
+            tp = tp[0] if tp else None
+            for r in cfg.stmts(ast.Return):
+                v_ = r.ast.value
+                if v_ is None or any(x is c_ for _, c_ in fcalls for x in ast.walk(v_)) or any(derives_from(cfg, r, v_, (lambda x, c_=c_: x is c_)) for _, c_ in fcalls):
+                    continue
+                if isinstance(v_, ast.Name) and v_.id == tp:
+                    continue
+                rep.violation(
+                    "R-FMT-TAINT/fragment",
+                    f,
+                    r.ast,
+                    f"{f.qualname} falls back to `{short(v_, 50)}` instead of the unformatted text it was given: a second rendering of the value (json.dumps, repr, ...) has its own escaping rules - "
+                    "characters outside the BMP come back as lone surrogates, the literal no longer evaluates to the value",
+                    construct="fallback-not-input",
+                )
     rep.floor("R-FMT-TAINT/fragment", "format_code call sites in _source_file.py", n, 1)
+
+
+def codegen_text(repo: Repo, rep):
+    rep.rule(
+        "R-CODEGEN-TEXT",
+        "the text of a generated value is the untokenised token list, formatted - and nothing else: in the function of _source_file.py that turns tokens "
+        "into code, untokenize() receives the token parameter itself (a token filter such as normalize() drops the comma of `(3,)`: the tuple becomes an "
+        "int) and the result passes only through the fragment formatter and strip-like methods (a textual replace / re.sub on generated code also rewrites "
+        "the *inside* of string literals: six quotes in a row are data in `a,\"\"\"\"\"\",b`)",
+    )
+    m = repo.module("_source_file.py")
+    n = 0
+    for f in m.funcs.values():
+        un = [c for c in body_nodes(f.node) if isinstance(c, ast.Call) and norm(c.func).endswith("untokenize")]
+        if not un:
+            continue
+        tparams = [p_ for p_ in f.params if p_ not in ("self", "cls")]
+        for c in un:
+            n += 1
+            a0 = c.args[0] if c.args else None
+            if not (isinstance(a0, ast.Name) and a0.id in tparams):
+                rep.violation("R-CODEGEN-TEXT", f, c, f"`{short(c, 60)}`: the tokens are filtered / rewritten before they become text: normalisations meant for *comparing* token lists (dropping trailing commas, merging strings) change the value when applied to generated code - `(3,)` is written as `(3)`", construct=f"{f.qualname}:untokenize-arg")
+            else:
+                rep.ok("R-CODEGEN-TEXT", f, c, "untokenize(<the tokens given>)")
+        cfg = cfg_of(f)
+        for r in cfg.stmts(ast.Return):
+            v_ = r.ast.value
+            if v_ is None:
+                continue
+            exprs = [v_]
+            for nm in [x for x in ast.walk(v_) if isinstance(x, ast.Name)]:
+                for d in reaching_defs(cfg, r, nm.id):
+                    dv = def_value(d, nm.id)
+                    if dv is not None:
+                        exprs.append(dv)
+            if not any(any(x is c for x in ast.walk(e_)) for e_ in exprs for c in un):
+                continue
+            for e_ in exprs:
+                for x in ast.walk(e_):
+                    if isinstance(x, ast.Call) and isinstance(x.func, ast.Attribute) and x.func.attr in ("replace", "translate", "sub", "subn", "format", "removeprefix", "removesuffix", "expandtabs", "lower", "upper") and not any(x is c for c in un):
+                        rep.violation("R-CODEGEN-TEXT", f, x, f"{f.qualname} post-processes the generated code with `{short(x, 50)}`: a textual substitution cannot tell code from the contents of a string literal, so values that contain the pattern are written damaged", construct=f"{f.qualname}:text-surgery")
+    rep.floor("R-CODEGEN-TEXT", "untokenize calls in _source_file.py", n, 1)
 
 
 def utf8(repo: Repo, rep):
